@@ -174,7 +174,7 @@ def _run_lemma(l, known):
                 extra_us.append(ent.replace(fn + ".", fn + "_wrapped_for_contract_checking.", 1))
     if extra_us:
         us += "," + ",".join(extra_us)
-    cb = ["cbmc", binary, "--unwinding-assertions", "--drop-unused-functions",
+    cb = ["cbmc", binary, "--verbosity", "8", "--unwinding-assertions", "--drop-unused-functions",   # verbosity 8: run-time statistics (solver seconds for the evidence)
           "--unwind", str(l.unwind), "--unwindset", us] + l.solver
     if l.safety:
         cb += SAFETY
@@ -252,7 +252,7 @@ def _judge(l, cb, rc, out, results, verdict, traces, secs, log, t0, need_dfcc):
     if rc == -999:
         res.detail = "cbmc timeout after %ds" % l.timeout
         return res
-    for m in re.finditer(r"Runtime (?:decision procedure|Solver): ([0-9.]+)s", out):
+    for m in re.finditer(r"Runtime decision procedure: ([0-9.]+)s", out):
         res.solver_s += float(m.group(1))
     alltxt = out
     if verdict is None or "Out of memory" in out[-3000:]:
